@@ -104,11 +104,14 @@ extern int64_t cmb_resourceguard_wait(struct cmb_resourceguard *rgp,
 /*
  * The same for a process that has been waiting since the given time, used by
  * the resource classes when one call has to go back to the guard for more.
+ * *arrival is zero for the first wait of the call and then holds the arrival
+ * number that wait was given, to be used again by the waits that follow.
  */
 extern int64_t cmi_resourceguard_wait_since(struct cmb_resourceguard *rgp,
                                             cmb_resourceguard_demand_func *demand,
                                             const void *ctx,
-                                            double since);
+                                            double since,
+                                            uint64_t *arrival);
 /** @endcond */
 
 /**
